@@ -185,41 +185,56 @@ def _roundtrip(enc, nat):
     return build
 
 
-def _ulen_minimal():
+def _ulen_minimal(P):
     # strong induction on x >= 0:  L = len(uenc(x)) satisfies
     #   x < 2^(7L)  and  (L == 1 or x >= 2^(7(L-1)))
     # i.e. no sequence of fewer than L seven-bit groups can represent x.
-    x = _x()
+    x = P.var("x")
     y = x // 128
+    Lx, Ly = length(uenc(x)), length(uenc(y))
 
-    def claim(v):
-        L = length(uenc(v))
+    def claim(v, L):
         return and_(L >= 1, v < pow2(7 * L), or_(L == 1, v >= pow2(7 * (L - 1))))
-    hyps = [x >= 0, implies(x >= 128, claim(y))]     # IH at y = x // 128 < x
-    return hyps, claim(x)
+    P.assume(x >= 0)
+    P.assume(implies(x >= 128, claim(y, Ly)))     # IH at y = x // 128 < x
+    # definition unfolding (recursive spec function + sequence length only)
+    P.have("unfold uenc: x < 128 => length 1", implies(x < 128, Lx == 1), using=[x >= 0])
+    P.have("unfold uenc: x >= 128 => length 1 + length at x//128", implies(x >= 128, Lx == 1 + Ly), using=[x >= 0])
+    # arithmetic step for every integer length L (linear arithmetic + pow2 only)
+    P.have_forall("arithmetic step (any L): claim(x//128, L) => claim(x, L+1)",
+                  lambda v, L: ([v >= 128, claim(v // 128, L)], claim(v, L + 1)), x, Ly)
+    P.have_forall("arithmetic base: 0 <= x < 128 and L == 1 => claim(x, L)",
+                  lambda v, L: ([v >= 0, v < 128, L == 1], claim(v, L)), x, Lx)
+    P.show(claim(x, Lx))
 
 
-def _slen_minimal():
+def _slen_minimal(P):
     # signed: L = len(senc(x)) satisfies  -2^(7L-1) <= x < 2^(7L-1)  and
     # (L == 1 or not (-2^(7(L-1)-1) <= x < 2^(7(L-1)-1)))
-    x = _x()
+    x = P.var("x")
     y = x // 128
+    Lx, Ly = length(senc(x)), length(senc(y))
 
     def fits(v, L):
         return and_(v >= -pow2(7 * L - 1), v < pow2(7 * L - 1))
 
-    def claim(v):
-        L = length(senc(v))
+    def claim(v, L):
         return and_(L >= 1, fits(v, L), or_(L == 1, not_(fits(v, L - 1))))
-    hyps = [implies(not_(_sterm(x)), claim(y))]
-    return hyps, claim(x)
+    P.assume(implies(not_(_sterm(x)), claim(y, Ly)))      # IH at y = x // 128
+    P.have("unfold senc: terminal group => length 1", implies(_sterm(x), Lx == 1), using=[])
+    P.have("unfold senc: otherwise length 1 + length at x//128", implies(not_(_sterm(x)), Lx == 1 + Ly), using=[])
+    P.have_forall("arithmetic step (any L): claim(x//128, L) => claim(x, L+1)",
+                  lambda v, L: ([not_(_sterm(v)), claim(v // 128, L)], claim(v, L + 1)), x, Ly)
+    P.have_forall("arithmetic base: terminal group and L == 1 => claim(x, L)",
+                  lambda v, L: ([_sterm(v), L == 1], claim(v, L)), x, Lx)
+    P.show(claim(x, Lx))
 
 
 LEMMAS = [
     Lemma("roundtrip-unsigned: encoder post establishes decoder pre (v:=x, rest:=[])", _roundtrip(uenc, True)),
     Lemma("roundtrip-signed: encoder post establishes decoder pre (v:=x, rest:=[])", _roundtrip(senc, False)),
-    Lemma("unsigned-minimal-length (induction step, IH at x//128)", _ulen_minimal),
-    Lemma("signed-minimal-length (induction step, IH at x//128)", _slen_minimal),
+    Lemma("unsigned-minimal-length (induction step, IH at x//128)", _ulen_minimal, script=True),
+    Lemma("signed-minimal-length (induction step, IH at x//128)", _slen_minimal, script=True),
 ]
 
 ASSUMED = []
